@@ -355,7 +355,11 @@ def run_check(pid, tier, master, budget_s=None, jobs=None, max_runs=None, quiet=
         exit_code = 1
     if agg.harness_errors and exit_code == 0:
         e = agg.harness_errors[0]
-        lines.append('HARNESS-ERROR property=%s %s %s' % (pid, e.get('status'), (e.get('error') or '')[:300]))
+        os.makedirs(REPLAYS, exist_ok=True)
+        hp = os.path.join(REPLAYS, 'HARNESS-%s-%s.json' % (pid, e.get('seed')))
+        with open(hp, 'w') as f:
+            json.dump(e, f, indent=1, default=repr)
+        lines.append('HARNESS-ERROR property=%s %s %s (seed %s, details %s)' % (pid, e.get('status'), (e.get('error') or '')[:300], e.get('seed'), hp))
         if e.get('tb'):
             sys.stderr.write(e['tb'] + '\n')
         exit_code = 2
